@@ -70,11 +70,13 @@ theorem replUpdLoop_reports (view : Nat → Nat) (q : List (Nat × Nat)) : ∀ (
     (replUpdLoop s f (rmBatch q)).2.matchU = f.matchU ∧ (replUpdLoop s f (rmBatch q)).2.noContactU = f.noContactU ∧
     (replUpdLoop s f (rmBatch q)).2.stop = f.stop ∧
     Coupled (replUpdLoop s f (rmBatch q)).1 [] view ∧
-    (∀ r ∈ s.ldr.repls, ∃ r' ∈ (replUpdLoop s f (rmBatch q)).1.ldr.repls, r'.id = r.id) := by
+    (∀ r ∈ s.ldr.repls, ∃ r' ∈ (replUpdLoop s f (rmBatch q)).1.ldr.repls, r'.id = r.id) ∧
+    (replUpdLoop s f (rmBatch q)).1.role = s.role ∧
+    (∀ r' ∈ (replUpdLoop s f (rmBatch q)).1.ldr.repls, ∃ r ∈ s.ldr.repls, r.id = r'.id) := by
   induction q with
   | nil =>
     intro s f _ hc
-    exact ⟨rfl, rfl, rfl, hc, fun r hr => ⟨r, hr, rfl⟩⟩
+    exact ⟨rfl, rfl, rfl, hc, fun r hr => ⟨r, hr, rfl⟩, rfl, fun r hr => ⟨r, hr, rfl⟩⟩
   | cons e q ih =>
     intro s f hs hc
     rw [replUpdLoop_rm_cons]
@@ -112,12 +114,17 @@ theorem replUpdLoop_reports (view : Nat → Nat) (q : List (Nat × Nat)) : ∀ (
             rw [hid, h]
           rw [e1, if_neg hne] at this
           exact this
-      obtain ⟨i1, i2, i3, i4, i5⟩ := ih (s.setRepl { st with removeLTE := e.2 }) { f with removeLTEU := true } hs' hc'
-      refine ⟨i1, i2, i3, i4, fun r hr => ?_⟩
-      by_cases hrid : r.id = st.id
-      · obtain ⟨r', hr', e'⟩ := i5 { st with removeLTE := e.2 } (LC.mem_insertRepl_self _ _)
-        exact ⟨r', hr', by rw [e', hrid]⟩
-      · exact i5 r (LC.mem_insertRepl_of_mem _ r _ hr hrid)
+      obtain ⟨i1, i2, i3, i4, i5, i6, i7⟩ :=
+        ih (s.setRepl { st with removeLTE := e.2 }) { f with removeLTEU := true } hs' hc'
+      refine ⟨i1, i2, i3, i4, fun r hr => ?_, i6, fun r' hr' => ?_⟩
+      · by_cases hrid : r.id = st.id
+        · obtain ⟨r', hr', e'⟩ := i5 { st with removeLTE := e.2 } (LC.mem_insertRepl_self _ _)
+          exact ⟨r', hr', by rw [e', hrid]⟩
+        · exact i5 r (LC.mem_insertRepl_of_mem _ r _ hr hrid)
+      · obtain ⟨r, hr, er⟩ := i7 r' hr'
+        rcases LC.mem_insertRepl _ r _ hs hr with h | ⟨h1, _⟩
+        · exact ⟨st, hmem, by rw [← er, h]⟩
+        · exact ⟨r, h1, er⟩
 
 theorem updPre_reports (view : Nat → Nat) (q : List (Nat × Nat)) (s : Node)
     (hs : LC.Sorted s.ldr.repls) (hc : Coupled s q view) :
@@ -145,7 +152,7 @@ theorem reports_only_keeps_views (s : Node) (q : List (Nat × Nat)) (view : Nat 
   · right
     have hs : LC.Sorted (s.begin ra ord).ldr.repls := ((C06Cache.cacheOK_iff s).mp (hC hl)).sortedRepls
     have hcb : Coupled (s.begin ra ord) q view := hc
-    obtain ⟨_, _, _, i4, i5⟩ := replUpdLoop_reports view q (s.begin ra ord) {} hs hcb
+    obtain ⟨_, _, _, i4, i5, _, _⟩ := replUpdLoop_reports view q (s.begin ra ord) {} hs hcb
     have hpre := updPre_reports view q (s.begin ra ord) hs hcb
     have key := compaction_keeps_views_at_decision s (rmBatch q) ra ord view hd (by rw [hpre]; exact i4)
     intro r hr
